@@ -368,7 +368,7 @@ def do_replay(prop, path):
                     if inst.case_id(case) == viol["case"]:
                         r, detail, _ = runner.native_replay(inst, case, viol["env"])
                         print(json.dumps(detail, indent=1, default=str)[:3000])
-                        failed = [n for n, ok in (r or []) if not ok]
+                        failed = [n for n, ok in (r or []) if ok is False]
                         print("failed obligations on the real code:", failed)
                         if failed:
                             print(f"VIOLATION property={prop} replay={path}")
